@@ -333,6 +333,49 @@ const HIST_ARGS: [&str; 26] = [
 ];
 const HIST_CODES: &[u8] = b"LSRVvhkKrcaAdeGgfFmnpPqQMN";
 
+/// one step of a growth history: mostly adds of fresh entries to ONE collection, plus re-adds (other case),
+/// removals and queries of entries known to be present
+fn grow_op(rng: &mut Rng, ops: &mut Vec<Vec<u8>>, focus: usize, have: &mut Vec<Vec<u8>>) {
+    let r = rng.below(20);
+    if r >= 18 { rand_op(rng, ops); return; }
+    let fresh = |rng: &mut Rng| -> Vec<u8> {
+        match focus { 0 => gen::rand_variant(rng), 1 => gen::rand_attr(rng), 2 => gen::rand_ukey(rng), 3 => gen::rand_tkey(rng), _ => gen::rand_priv_num(rng) }.into_bytes()
+    };
+    let (add, rem, has): (u8, u8, u8) = match focus { 0 => (b'V', b'V', b'h'), 1 => (b'A', b'd', b'a'), 2 => (b'K', b'r', b'k'), 3 => (b'F', b'm', b'f'), _ => (b'P', b'q', b'p') };
+    let recase = |rng: &mut Rng, v: &[u8]| -> Vec<u8> { v.iter().map(|c| if rng.chance(1, 3) { c.to_ascii_uppercase() } else { *c }).collect() };
+    let mut pl: Vec<Vec<u8>> = vec![];
+    let code;
+    if r < 13 || have.is_empty() {
+        let x = fresh(rng);
+        if focus != 4 { have.retain(|y| !y.eq_ignore_ascii_case(&x)); }
+        have.push(x.clone());
+        code = add;
+        if focus == 0 { pl = have.clone(); shuffle(rng, &mut pl); if rng.chance(1, 4) { let d = pl[0].clone(); pl.push(d); } }
+        else { pl.push(x); }
+        if focus == 2 { for _ in 0..rng.below(4) { pl.push(gen::rand_utype(rng).into_bytes()); } }
+        if focus == 3 { for _ in 0..(1 + rng.below(2)) { pl.push(gen::rand_tvalue(rng).into_bytes()); } }
+    } else if r < 15 {
+        let y = rng.pick(have).clone();
+        let x = recase(rng, &y);
+        code = add;
+        if focus == 0 { pl = have.clone(); pl.push(x); shuffle(rng, &mut pl); }
+        else { if focus == 4 { have.push(x.to_ascii_lowercase()); } pl.push(x); }
+        if focus == 2 { for _ in 0..rng.below(3) { pl.push(gen::rand_utype(rng).into_bytes()); } }
+        if focus == 3 { pl.push(gen::rand_tvalue(rng).into_bytes()); }
+    } else if r < 17 {
+        let k = rng.below(have.len());
+        let x = have.remove(k);
+        code = rem;
+        if focus == 0 { pl = have.clone(); shuffle(rng, &mut pl); } else { pl.push(recase(rng, &x)); }
+    } else {
+        code = has;
+        pl.push(if rng.chance(2, 3) { rng.pick(have).clone() } else { fresh(rng) });
+    }
+    ops.push(vec![code]);
+    ops.push(pl.len().to_string().into_bytes());
+    ops.extend(pl);
+}
+
 pub fn rand_op_pub(rng: &mut Rng, ops: &mut Vec<Vec<u8>>) { rand_op(rng, ops) }
 fn rand_op(rng: &mut Rng, ops: &mut Vec<Vec<u8>>) {
     let code = *rng.pick(HIST_CODES);
@@ -404,6 +447,24 @@ pub fn run(out: &mut Out, tier: &str, rng: &mut Rng) {
         value_ops(out, &m);
         if i % 4 == 0 && pool.len() < 4000 { pool.push(s); }
     }
+    out.comment("G3L: long well-formed locales (about 60-250 subtags), tail edits and mutations");
+    let n = if thorough { 20_000 } else { 1_500 };
+    let tails: [&[u8]; 12] = [b"-*", b"-u-ca", b"-abcdefghi", b"-t-en", b"-a-foo", b"--", b"-x-", b"-1", b"-x-abcdefghi", b"-t-h0", b"-u-u", b"-x-a-b"];
+    for _ in 0..n {
+        let toks = gen::wf_long_locale_tokens(rng);
+        let s = gen::render(rng, &toks);
+        parse_ops(out, &s);
+        value_ops(out, &s);
+        let mut m = s.clone(); m.extend_from_slice(*rng.pick(&tails));
+        parse_ops(out, &m);
+        let m = gen::mutate(rng, &s);
+        parse_ops(out, &m);
+        if let Some(p) = toks.iter().position(|t| t.len() == 1) {
+            let parts: Vec<&[u8]> = toks[p..].iter().map(|t| t.as_bytes()).collect();
+            let e = gen::join(&parts, rng.next());
+            out.case("extmap", &[&e], || extmap(&e));
+        }
+    }
     out.comment("ExtensionsMap::from_bytes on extension strings");
     let n = if thorough { 100_000 } else { 10_000 };
     for _ in 0..n {
@@ -430,6 +491,16 @@ pub fn run(out: &mut Out, tier: &str, rng: &mut Rng) {
         let fa: &[u8] = if ra { b"1" } else { b"0" }; let fb: &[u8] = if rb { b"1" } else { b"0" };
         out.case("loc_matches", &[&a, &b, fa, fb], || loc_matches(&a, &b, ra, rb));
         out.case("loc_cmp", &[&a, &b], || loc_cmp(&a, &b));
+    }
+    out.comment("C11/C12: near pairs (one character apart)");
+    let n = if thorough { 60_000 } else { 6_000 };
+    for _ in 0..n {
+        let ta = gen::wf_locale_tokens(rng);
+        let tb = gen::tweak(rng, &ta);
+        let (a, b) = (gen::render(rng, &ta), gen::render(rng, &tb));
+        out.case("loc_cmp", &[&a, &b], || loc_cmp(&a, &b));
+        out.case("loc_cmp", &[&b, &a], || loc_cmp(&b, &a));
+        out.case("loc_matches", &[&a, &b, b"0", b"0"], || loc_matches(&a, &b, false, false));
     }
     out.comment("C09: metamorphic pairs");
     let n = if thorough { 300_000 } else { 30_000 };
@@ -460,6 +531,18 @@ pub fn run(out: &mut Out, tier: &str, rng: &mut Rng) {
         let len = if i % 5 == 0 { 20 + rng.below(60) } else { 1 + rng.below(8) };
         let mut args: Vec<Vec<u8>> = vec![start];
         for _ in 0..len { rand_op(rng, &mut args); }
+        let refs: Vec<&[u8]> = args.iter().map(|v| v.as_slice()).collect();
+        out.case("loc_hist", &refs, || loc_hist(&refs));
+    }
+    out.comment("G6b: growth histories (one collection grown past 8 / 21 / 32 entries, re-adds, removals, queries)");
+    let n = if thorough { 30_000 } else { 1_500 };
+    for i in 0..n {
+        let focus = i % 5;
+        let start: Vec<u8> = if i % 4 == 0 { rng.pick(&pool).clone() } else { vec![] };
+        let len = 10 + rng.below(40);
+        let mut args: Vec<Vec<u8>> = vec![start];
+        let mut have: Vec<Vec<u8>> = vec![];
+        for _ in 0..len { grow_op(rng, &mut args, focus, &mut have); }
         let refs: Vec<&[u8]> = args.iter().map(|v| v.as_slice()).collect();
         out.case("loc_hist", &refs, || loc_hist(&refs));
     }
